@@ -185,7 +185,12 @@ public:
       return StartResult::err(lastError());
     }
 
-    _eventFd = ::eventfd(0, EFD_NONBLOCK | EFD_CLOEXEC);
+    {
+      // Publish _eventFd under _cmdMutex: enqueue() reads it under that lock, and the
+      // engine's own TimerService thread can enqueue at any time (not only API callers).
+      std::lock_guard<std::mutex> g(_cmdMutex);
+      _eventFd = ::eventfd(0, EFD_NONBLOCK | EFD_CLOEXEC);
+    }
     if (_eventFd < 0)
     {
       setLastFatal(IoResult::failure(TransportError::Config, "eventfd: " + lastErr(), errno));
@@ -1058,6 +1063,10 @@ private:
       if (!s || s->closed)
         continue;
       s->closed = true;
+      // Same as closeNow: a connect/handshake/write-stall timer left armed would fire on
+      // the TimerService thread after the session is gone — and, after a restart,
+      // enqueue() concurrently with start() re-creating _eventFd.
+      cancelAllTimers(s);
       delEpoll(s->fd);
       // SSL_shutdown before close(fd) — same ordering as closeNow
       if (s->ssl)
